@@ -243,7 +243,7 @@ func (s *SelectStatement) ToStreamConfig() (*types.Config, string, error) {
 	// HAVING 可引用未选出的聚合（标准 SQL）。把 HAVING 文本里的聚合调用
 	// 映射到已选 alias，或注册为隐藏聚合 __having_N__ 让 aggregator 补算；aggs/fields 原地扩充。
 	selectAlias := buildSelectAliasMap(s.Fields)
-	havingRewritten := extractHavingAggregates(s.Having, aggs, fields, selectAlias)
+	havingRewritten := extractHavingAggregates(s.Having, aggs, fields, selectAlias, expressions)
 
 	// 执行路径模式：MATCH_RECOGNIZE→CEP；窗口/聚合→Window；否则 Direct。
 	// 拦截 MATCH_RECOGNIZE 与 GROUP/聚合、JOIN 的组合（后续阶段支持）。
@@ -558,7 +558,12 @@ func collapseSpacesOutsideQuotes(s string) string {
 //   - aggs[ac] 命中（无别名选出，键恰为调用文本）→ 不动。
 //   - 否则（未选出）→ 注册隐藏聚合 __having_N__（aggs/fieldMap 原地扩充），ac 改写为 __having_N__。
 // 返回改写后的 HAVING 文本。aggs/fieldMap 为 map 引用，原地修改。
-func extractHavingAggregates(having string, aggs map[string]aggregator.AggregateType, fieldMap map[string]string, selectAlias map[string]string) string {
+//
+// expressions (may be nil) receives the per-row argument expression of a hidden aggregate whose
+// argument is not a bare column (HAVING SUM(t * u) > 5), exactly as buildSelectFieldsWithExpressions
+// does for a selected aggregate; without it the hidden aggregate would run over the first column
+// of the argument only.
+func extractHavingAggregates(having string, aggs map[string]aggregator.AggregateType, fieldMap map[string]string, selectAlias map[string]string, expressions map[string]types.FieldExpression) string {
 	if strings.TrimSpace(having) == "" {
 		return having
 	}
@@ -594,7 +599,7 @@ func extractHavingAggregates(having string, aggs map[string]aggregator.Aggregate
 			repl[i] = ac
 			continue
 		}
-		aggType, name, _, _, perr := ParseAggregateTypeWithExpression(collapseSpacesOutsideQuotes(ac))
+		aggType, name, expression, allFields, perr := ParseAggregateTypeWithExpression(collapseSpacesOutsideQuotes(ac))
 		if perr != nil || aggType == "" {
 			repl[i] = ac // 解析失败原样保留（求值落空但不破坏文本）
 			continue
@@ -606,6 +611,13 @@ func extractHavingAggregates(having string, aggs map[string]aggregator.Aggregate
 			fieldMap[hidden] = name
 		} else {
 			fieldMap[hidden] = hidden
+		}
+		if expression != "" && expressions != nil {
+			expressions[hidden] = types.FieldExpression{
+				Field:      name,
+				Expression: expression,
+				Fields:     allFields,
+			}
 		}
 		repl[i] = hidden
 	}
